@@ -23,6 +23,12 @@ def main():
             traceback.print_exc()
         print('%-40s %d obligations' % (c.name, len(eng.obligations) - n0))
     print('generation %.1fs' % (time.time() - t0))
+    import os
+    if os.environ.get('PYVC_DUMP'):
+        os.makedirs(os.environ['PYVC_DUMP'], exist_ok=True)
+        import re
+        for i, ob in enumerate(eng.obligations):
+            open(os.path.join(os.environ['PYVC_DUMP'], '%03d_%s.smt2' % (i, re.sub(r'[^A-Za-z0-9_.-]', '_', ob.name))), 'w').write(solve.to_smt2(ob.pc, ob.goal))
     res = solve.discharge(eng.obligations, timeout_s=float(sys.argv[3]) if len(sys.argv) > 3 else 10)
     bad = 0
     for ob, r in zip(eng.obligations, res):
